@@ -1,9 +1,13 @@
 use crate::common::Tier;
 pub mod c02;
+pub mod c18;
+pub mod c19;
 
 pub fn run(id: &str, tier: Tier) -> i32 {
     match id {
         "C02" => c02::run(tier),
+        "C18" => c18::run(tier),
+        "C19" => c19::run(tier),
         _ => {
             eprintln!("no check for {id}");
             2
@@ -26,6 +30,7 @@ pub fn replay(id: &str, path: &str) -> i32 {
     let v: serde_json::Value = serde_json::from_str(&text).expect("replay file is not JSON");
     match id {
         "C02" => c02::replay(&v),
+        "C19" => c19::replay(&v),
         _ => {
             eprintln!("no replay for {id}");
             2
